@@ -259,5 +259,101 @@ impl<'source> PeekableLexer<'source> {
 //@end
 }
 
+// ---- string / block-string callbacks of the logos lexer (token_kind.rs) ---------------
+/// `i` is a char boundary of `s` (logos::Lexer::bump panics "Invalid Lexer bump" otherwise)
+pub uninterp spec fn boundary(s: &str, i: nat) -> bool;
+//@item rel=crates/isograph_lang_parser/src/token_kind.rs kind=enum name=StringToken prefix="pub"
+//@item rel=crates/isograph_lang_parser/src/token_kind.rs kind=enum name=BlockStringToken prefix="#[derive(Copy, Clone)] pub"
+/// the sub-lexers generated by #[derive(Logos)] for StringToken / BlockStringToken: any
+/// variant may come out (Error is logos' catch-all for input no pattern matches); spans are
+/// char boundaries inside the sub-lexer's source
+#[verifier::external_body]
+#[verifier::reject_recursive_types(T)]
+pub struct SubLexer<'a, T> { p: core::marker::PhantomData<&'a T> }
+impl<'a, T> SubLexer<'a, T> {
+    pub uninterp spec fn src(&self) -> &'a str;
+    pub uninterp spec fn span_start(&self) -> nat;
+    pub uninterp spec fn span_end(&self) -> nat;
+    #[verifier::external_body]
+    pub fn next(&mut self) -> (r: Option<T>)
+        ensures
+            final(self).src() == old(self).src(),
+            final(self).span_start() <= final(self).span_end() <= byte_len(final(self).src()),
+            boundary(final(self).src(), final(self).span_start()) && boundary(final(self).src(), final(self).span_end()),
+    { unimplemented!() }
+    #[verifier::external_body]
+    pub fn span(&self) -> (r: core::ops::Range<usize>) ensures r.start == self.span_start(), r.end == self.span_end() { unimplemented!() }
+}
+#[verifier::external_body]
+pub fn string_lexer_for<'a>(s: &'a str) -> (r: SubLexer<'a, StringToken>) ensures r.src() == s { unimplemented!() }
+#[verifier::external_body]
+pub fn block_string_lexer_for<'a>(s: &'a str) -> (r: SubLexer<'a, BlockStringToken>) ensures r.src() == s { unimplemented!() }
+impl<'source> Lexer<'source> {
+    pub uninterp spec fn remainder_spec(&self) -> &'source str;
+    #[verifier::external_body]
+    pub fn remainder(&self) -> (r: &'source str) ensures r == self.remainder_spec() { unimplemented!() }
+    /// logos::Lexer::bump: panics unless the new end is inside the source on a char boundary
+    #[verifier::external_body]
+    pub fn bump(&mut self, n: usize)
+        requires n <= byte_len(old(self).remainder_spec()), boundary(old(self).remainder_spec(), n as nat),
+    { unimplemented!() }
+}
+
+//@fn rel=crates/isograph_lang_parser/src/token_kind.rs name=lex_string vis=pub ret=r serves=C07 prefix="#[verifier::exec_allows_no_decreases_clause]"
+//@hsub "Lexer<'_, IsographLangTokenKind>" => "Lexer<'_>"
+//@sub "StringToken::lexer\(remainder\)" => "string_lexer_for(remainder)" n=1
+//@contract
+    // total: no bump outside the remainder or inside a character (C07: never panics)
+//@loop 1
+        invariant string_lexer.src() == lexer.remainder_spec(),
+//@end
+
+//@fn rel=crates/isograph_lang_parser/src/token_kind.rs name=lex_block_string vis=pub ret=r serves=C07 prefix="#[verifier::exec_allows_no_decreases_clause]"
+//@hsub "Lexer<'_, IsographLangTokenKind>" => "Lexer<'_>"
+//@sub "BlockStringToken::lexer\(remainder\)" => "block_string_lexer_for(remainder)" n=1
+//@contract
+    // total: no bump outside the remainder or inside a character, no unreachable!() (C07)
+//@loop 1
+        invariant string_lexer.src() == lexer.remainder_spec(),
+//@end
+
+// ---- integer literal conversion inside parse_non_constant_value (parse_iso_literal.rs) ----
+/// `s` is an IntegerLiteral token: matches  -?(0|[1-9][0-9]*)  (token_kind.rs) — any number of digits
+pub uninterp spec fn is_integer_literal(s: &str) -> bool;
+/// str::parse::<i64>: Ok exactly when the decimal value fits into i64 (assumed contract)
+pub uninterp spec fn fits_i64(s: &str) -> bool;
+#[derive(Debug)]
+pub struct ParseIntError { p: core::marker::PhantomData<u8> }
+#[verifier::external_body]
+pub fn parse_i64(s: &str) -> (r: Result<i64, ParseIntError>) ensures (r is Ok) == fits_i64(s) { unimplemented!() }
+pub enum NonConstantValue { Integer(i64), Other }
+pub struct Location { pub embedded: EmbeddedLocation }
+impl Diagnostic {
+    #[verifier::external_body]
+    pub fn new(message: String, location: Option<Location>) -> Diagnostic { unimplemented!() }
+}
+#[verifier::external_body]
+pub fn string_of(s: &str) -> String { unimplemented!() }
+//@ifexpr rel=crates/isograph_lang_parser/src/parse_iso_literal.rs fn=parse_non_constant_value start="match number.parse()"
+/// the value built for an IntegerLiteral token: the real `match number.parse() {..}` of
+/// parse_non_constant_value — must not panic for ANY IntegerLiteral token, and must not
+/// accept a literal whose value does not fit
+pub fn integer_literal_value(number: &str, embedded_location: EmbeddedLocation) -> (r: Result<NonConstantValue, Diagnostic>)
+    requires is_integer_literal(number),
+    ensures (r is Ok) == fits_i64(number), //@O C07.O-3_integer_literal_is_value_or_diagnostic_never_panic
+{
+//@expr rel=crates/isograph_lang_parser/src/parse_iso_literal.rs fn=parse_non_constant_value start="match number.parse()" block=integer_literal_value serves=C07 sub="number\.parse\(\)=>parse_i64(number)" sub2="\"Integer literal is out of range\"\.to_string\(\)=>string_of(\"Integer literal is out of range\")" sub3="embedded_location\.to::<Location>\(\)=>Location { embedded: embedded_location }" rw=R2,R4
+}
+
+//@endif
+//@ifnotexpr rel=crates/isograph_lang_parser/src/parse_iso_literal.rs fn=parse_non_constant_value start="match number.parse()"
+/// other shape of the same code: the value is built directly from the parse result
+pub fn integer_literal_value(number: &str) -> (r: NonConstantValue)
+    requires is_integer_literal(number), //@O C07.O-3_integer_literal_is_value_or_diagnostic_never_panic
+{
+//@expr rel=crates/isograph_lang_parser/src/parse_iso_literal.rs fn=parse_non_constant_value start="NonConstantValue::Integer(" block=integer_literal_value serves=C07 sub="number\.parse\(\)=>parse_i64(number)" rw=R2
+}
+//@endif
+
 } // verus!
 fn main() {}
